@@ -2,7 +2,110 @@
 import SigV4.Spec.ValidateSpec
 import SigV4.Spec.HeaderSpec
 import SigV4.Spec.UriSpec
+import SigV4.Lemmas.Headers
 
 namespace SigV4
+
+/-! ### `assocInsert` -/
+
+theorem assocGet_assocInsert {β : Type} (m : List (Bytes × β)) (k' k : Bytes) (v : β) :
+    assocGet (assocInsert m k' v) k = if k' = k then some v else assocGet m k := by
+  induction m with
+  | nil => simp [assocInsert, assocGet]
+  | cons e rest ih =>
+    obtain ⟨a, b⟩ := e
+    unfold assocInsert
+    by_cases ha : a = k'
+    · subst ha
+      simp only [if_true]
+      unfold assocGet
+      by_cases hk : a = k <;> simp [hk]
+    · simp only [ha, if_false]
+      unfold assocGet
+      rw [ih]
+      by_cases hk : a = k
+      · have : ¬ k' = k := fun h => ha (hk.trans h.symm)
+        simp [hk, this]
+      · simp [hk]
+
+/-! ### The Authorization parameter loop -/
+
+/-- The value one parameter contributes for key `k` (after trimming). -/
+def paramSel (k : Bytes) (p : Bytes) : Option Bytes :=
+  match splitFirst 0x3D (trimAscii p) with
+  | (k', some v) => if k' = k then some v else none
+  | _ => none
+
+theorem authHeaderParamLoop_get (ps : List Bytes) (m0 m : List (Bytes × Bytes)) (k : Bytes)
+    (h : authHeaderParamLoop ps m0 = .ok m) :
+    assocGet m k = (ps.reverse.findSome? (paramSel k)).or (assocGet m0 k) := by
+  induction ps generalizing m0 with
+  | nil =>
+    unfold authHeaderParamLoop at h
+    cases h
+    simp
+  | cons p rest ih =>
+    unfold authHeaderParamLoop at h
+    simp only at h
+    rw [List.reverse_cons, List.findSome?_append]
+    by_cases hp : trimAscii p = []
+    · rw [if_pos hp] at h
+      have hsel : paramSel k p = none := by
+        unfold paramSel
+        rw [hp]
+        rfl
+      rw [ih m0 h]
+      simp [hsel]
+    · rw [if_neg hp] at h
+      cases hs : splitFirst 0x3D (trimAscii p) with
+      | mk k' v? =>
+        rw [hs] at h
+        cases v? with
+        | none => simp at h
+        | some v =>
+          simp only at h
+          have hsel : paramSel k p = if k' = k then some v else none := by
+            unfold paramSel
+            rw [hs]
+          rw [ih _ h, assocGet_assocInsert]
+          cases hr : List.findSome? (paramSel k) rest.reverse with
+          | some w => simp
+          | none =>
+            by_cases hk : k' = k <;> simp [hsel, hk]
+
+/-! ### Grouping pairs -/
+
+theorem foldl_assocPush_get (l : List (Bytes × Bytes)) (m0 : QueryMap) (k : Bytes) :
+    assocGet (l.foldl (fun m kv => assocPush m kv.1 kv.2) m0) k =
+      match assocGet m0 k with
+      | some vs => some (vs ++ (l.filter fun kv => kv.1 = k).map (·.2))
+      | none =>
+        if (l.filter fun kv => kv.1 = k) = [] then none
+        else some ((l.filter fun kv => kv.1 = k).map (·.2)) := by
+  induction l generalizing m0 with
+  | nil => cases hm : assocGet m0 k <;> simp [hm]
+  | cons e rest ih =>
+    obtain ⟨a, b⟩ := e
+    rw [List.foldl_cons, ih, assocGet_assocPush]
+    by_cases h : a = k
+    · have hf : List.filter (fun kv : Bytes × Bytes => decide (kv.1 = k)) ((a, b) :: rest)
+          = (a, b) :: List.filter (fun kv : Bytes × Bytes => decide (kv.1 = k)) rest := by
+        simp [h]
+      rw [hf]
+      simp only [h, if_true]
+      cases hm : assocGet m0 k <;> simp
+    · have hf : List.filter (fun kv : Bytes × Bytes => decide (kv.1 = k)) ((a, b) :: rest)
+          = List.filter (fun kv : Bytes × Bytes => decide (kv.1 = k)) rest := by
+        simp [h]
+      rw [hf]
+      simp only [h, if_false]
+
+theorem groupPairs_get (l : List (Bytes × Bytes)) (k : Bytes) :
+    assocGet (groupPairs l) k =
+      if (l.filter fun kv => kv.1 = k) = [] then none
+      else some ((l.filter fun kv => kv.1 = k).map (·.2)) := by
+  unfold groupPairs
+  rw [foldl_assocPush_get]
+  rfl
 
 end SigV4
